@@ -8,7 +8,7 @@ typedef OPNMIDIplay MidiPlayer;
 #define assert(x) __CPROVER_assert((x), "assert() of the original")
 #define OPN_MAX_CHIPS 100
 #define OPN_MAX_CHIPS_STR "100"
-extern unsigned g_error_texts, g_partial_resets; extern int g_locked;
+extern unsigned g_error_texts, g_partial_resets, g_lfo_commits; extern int g_locked;
 
 void setErrorString(const char *err)
 __CPROVER_requires(err != NULL) __CPROVER_assigns(g_error_texts) __CPROVER_ensures(g_error_texts == __CPROVER_old(g_error_texts) + 1);
@@ -66,4 +66,7 @@ __CPROVER_ensures(device != NULL ==> g_play.m_setup.VolumeModel == volumeModel)
 __CPROVER_ensures(device != NULL && !g_locked && volumeModel == OPNMIDI_VolumeModel_AUTO ==> (int)g_synth.m_volumeScale == g_synth.m_insBankSetup.volumeModel)
 __CPROVER_ensures(device != NULL && !g_locked && volumeModel >= OPNMIDI_VolumeModel_Generic && volumeModel <= OPNMIDI_VolumeModel_9X ==> g_synth.m_volumeScale == SPEC_MODEL_TO_SCALE(volumeModel))
 __CPROVER_ensures(device != NULL && g_locked ==> g_synth.m_volumeScale == __CPROVER_old(g_synth.m_volumeScale));
+
+/* chip register refresh after an LFO change (ASSUMED: writes chip registers only) */
+void commitLFOSetup(void) __CPROVER_requires(1) __CPROVER_assigns(g_lfo_commits) __CPROVER_ensures(g_lfo_commits == __CPROVER_old(g_lfo_commits) + 1);
 #endif
